@@ -199,13 +199,49 @@ def _strip_rebindings(tree, name):
     return tree
 
 
+# compound statements that open no scope and carry no `name` (an except handler carries one): a definition nested in
+# them is, for annotate_ancestry, at the location of a statement of the surrounding scope
+NON_SCOPE_STMTS = tuple(t for t in (ast.If, ast.For, ast.AsyncFor, ast.While, ast.With, ast.AsyncWith, ast.Try,
+                                    getattr(ast, "TryStar", None), getattr(ast, "Match", None)) if t is not None)
+
+
+def non_scope_bodies(stmt):
+    """the statement lists of such a statement, in visit order (the handlers of a try are not among them)"""
+    if getattr(ast, "Match", None) is not None and isinstance(stmt, ast.Match):
+        return [c.body for c in stmt.cases]
+    return [getattr(stmt, f) for f in ("body", "orelse", "finalbody") if getattr(stmt, f, None)]
+
+
+def _strip_standins(tree, name):
+    """the tree with every class definition of the target's own (short) name that is nested in statements opening no
+    scope replaced by a marker (definitions that are statements of a scope themselves, or sit in an except handler, stay)"""
+    import copy
+    short = name.split(".")[-1]
+    tree = copy.deepcopy(tree)
+
+    def strip(stmt):
+        for body in non_scope_bodies(stmt):
+            for i, s in enumerate(body):
+                if isinstance(s, ast.ClassDef) and s.name == short:
+                    body[i] = ast.Expr(value=ast.Constant(value="<<SAME-NAMED STAND-IN>>"))
+                elif isinstance(s, NON_SCOPE_STMTS):
+                    strip(s)
+    for n in ast.walk(tree):
+        if isinstance(n, (ast.Module, ast.ClassDef)):
+            for s in n.body:
+                if isinstance(s, NON_SCOPE_STMTS):
+                    strip(s)
+    return tree
+
+
 def _others(tree, name):
     return [x for x in _masked_dump(tree, name) if x != "<<NAMED DEFINITION>>"]
 
 
 def _explain(old, new, name):
     """the ways in which the other statements differ, each a failure kind of its own: docstring indentation only
-    (of the module / of other definitions), assignments to the target's own name lost, or anything else"""
+    (of the module / of other definitions), assignments to the target's own name lost, a same-named class nested in a
+    statement that opens no scope overwritten, or anything else"""
     def doc_kind(o, n):
         a, b = _others(o, name), _others(n, name)
         only_module = (len(a) == len(b) and a[1:] == b[1:] and ast.get_docstring(o) is not None and ast.get_docstring(n) is not None)
@@ -217,6 +253,11 @@ def _explain(old, new, name):
         return ["rebinding-replaced"]
     if _others(_clean_docstrings(so), name) == _others(_clean_docstrings(sn), name):
         return [doc_kind(so, sn), "rebinding-replaced"]
+    to, tn = _strip_standins(old, name), _strip_standins(new, name)
+    if _others(to, name) == _others(tn, name):
+        return ["stand-in-replaced"]
+    if _others(_clean_docstrings(to), name) == _others(_clean_docstrings(tn), name):
+        return [doc_kind(to, tn), "stand-in-replaced"]
     return ["statements"]
 
 
